@@ -245,12 +245,18 @@ func (w *dnsWorld) checkForwardersRetired(when string) {
 		return
 	}
 	for _, f := range w.fwds {
+		if f.id >= w.fwdsAtReset {
+			continue
+		}
 		if f.closes != 1 {
 			w.s.Failf("c09-forwarder-not-closed", "%s: forwarder f%d (%s over %s) was closed %d times (queries begun %d, in flight %d)", when, f.id, f.up, f.l4, f.closes, f.begun, f.inFlight)
 			return
 		}
 	}
 	for _, sk := range w.socks {
+		if sk.fwd == nil || sk.fwd.id >= w.fwdsAtReset {
+			continue
+		}
 		if !sk.pc.IsClosed() {
 			w.s.Failf("c09-socket-leak"+dnsLeakClass(sk.fwd), "%s: udp socket us%d to upstream %d is still open although every forwarder has been closed", when, sk.id, sk.up)
 			return
@@ -260,6 +266,9 @@ func (w *dnsWorld) checkForwardersRetired(when string) {
 		}
 	}
 	for _, tc := range w.tconns {
+		if tc.fwd == nil || tc.fwd.id >= w.fwdsAtReset {
+			continue
+		}
 		if !tc.cli.IsClosed() {
 			w.s.Failf("c09-socket-leak"+dnsLeakClass(tc.fwd), "%s: tcp connection tc%d to upstream %d is still open although every forwarder has been closed", when, tc.id, tc.up)
 			return
